@@ -358,6 +358,11 @@ pub fn run(ctx: &Ctx) -> i32 {
     });
     stats.merge(s2);
     viol.extend(v2);
+    crate::fuzzrun::golden("chain_alias", &mut stats, &mut viol);
+    if ctx.tier == vcommon::ev::Tier::Thorough {
+        let seeds: Vec<Vec<u8>> = (0..32u8).map(|i| vec![i.wrapping_mul(37); 20 + i as usize]).collect();
+        crate::fuzzrun::campaign(ctx, "chain_alias", crate::fuzzrun::fuzz_secs(180), &seeds, &mut stats, &mut viol);
+    }
     QUARANTINE.store(false, Ordering::SeqCst);
     Report::new(RULE)
         .assume("native execution: a changed, moved or freed buffer is observed through content (freed 256-multiple blocks are poisoned and quarantined by the harness allocator) and through the relative addresses of the held slices")
@@ -368,6 +373,9 @@ pub fn run(ctx: &Ctx) -> i32 {
 }
 
 pub fn replay(lane: &str, case: serde_json::Value) -> CaseResult {
+    if lane == "fuzz" {
+        return crate::fuzzrun::replay(&case);
+    }
     QUARANTINE.store(true, Ordering::SeqCst);
     if lane == "witness" {
         return match witness() {
